@@ -113,6 +113,9 @@ func worker(args []string) {
 	if len(args) == 0 {
 		os.Exit(2)
 	}
+	if args[0] == "samename" && len(args) > 1 {
+		os.Exit(cancel.SameNameWorker(args[1]))
+	}
 	if args[0] == "cancel" && len(args) > 1 {
 		os.Exit(cancel.Worker(args[1]))
 	}
